@@ -1,0 +1,431 @@
+//go:build verif
+
+/*
+ * SPDX-License-Identifier: Apache-2.0
+ */
+
+package badger
+
+// Control and projection API for the verification harness (build tag "verif").
+// Everything here is implemented by calling production code; no production logic is
+// duplicated. It exists so that an external harness can (a) drive background steps
+// (rotation, flush, one compaction, one GC rewrite) deterministically and (b) read the
+// abstract state (the projection) that the TLA+ specifications talk about.
+
+import (
+	"fmt"
+	"sort"
+	"time"
+
+	"github.com/dgraph-io/badger/v4/pb"
+	"github.com/dgraph-io/badger/v4/table"
+	"github.com/dgraph-io/badger/v4/y"
+)
+
+func verifTableIDs(tables []*table.Table) []uint64 {
+	out := make([]uint64, 0, len(tables))
+	for _, t := range tables {
+		out = append(out, t.ID())
+	}
+	return out
+}
+
+// Meta bits, exported for the harness.
+const (
+	VerifBitDelete       = bitDelete
+	VerifBitValuePointer = bitValuePointer
+	VerifBitDiscard      = bitDiscardEarlierVersions
+	VerifBitMerge        = bitMergeEntry
+	VerifBitTxn          = bitTxn
+	VerifBitFinTxn       = bitFinTxn
+)
+
+// VerifEntry is one physical entry of a memtable or table.
+type VerifEntry struct {
+	Key       []byte `json:"key"`
+	Version   uint64 `json:"version"`
+	Meta      byte   `json:"meta"`
+	UserMeta  byte   `json:"userMeta"`
+	ExpiresAt uint64 `json:"expiresAt"`
+	Value     []byte `json:"value"`    // inline value, or encoded pointer
+	IsPtr     bool   `json:"isPtr"`    // value is a value-log pointer
+	Fid       uint32 `json:"fid"`      // pointer target
+	Offset    uint32 `json:"offset"`   // pointer target
+	Len       uint32 `json:"len"`      // pointer target
+	Internal  bool   `json:"internal"` // key has the !badger! prefix
+	Source    string `json:"source"`   // "mt", "imm<i>", "L<l>:<id>"
+	TableID   uint64 `json:"tableId"`  // 0 for memtables
+	Level     int    `json:"level"`    // -1 for memtables
+	Pos       int    `json:"pos"`      // position of the table inside the level slice
+	RawKey    []byte `json:"-"`        // internal key with ts
+}
+
+// VerifTable describes one table of a level, in the order of the level's slice.
+type VerifTable struct {
+	ID         uint64 `json:"id"`
+	Level      int    `json:"level"`
+	Pos        int    `json:"pos"`
+	Smallest   []byte `json:"smallest"` // internal key
+	Biggest    []byte `json:"biggest"`  // internal key
+	Size       int64  `json:"size"`
+	StaleSize  uint32 `json:"staleSize"`
+	MaxVersion uint64 `json:"maxVersion"`
+	KeyCount   uint32 `json:"keyCount"`
+	CreatedAt  int64  `json:"createdAtUnix"`
+	InMemory   bool   `json:"inMemory"`
+}
+
+func verifEntryFrom(k []byte, vs y.ValueStruct) VerifEntry {
+	e := VerifEntry{
+		RawKey:    y.SafeCopy(nil, k),
+		Key:       y.SafeCopy(nil, y.ParseKey(k)),
+		Version:   y.ParseTs(k),
+		Meta:      vs.Meta,
+		UserMeta:  vs.UserMeta,
+		ExpiresAt: vs.ExpiresAt,
+		Value:     y.SafeCopy(nil, vs.Value),
+	}
+	if vs.Meta&bitValuePointer > 0 {
+		var vp valuePointer
+		vp.Decode(vs.Value)
+		e.IsPtr, e.Fid, e.Offset, e.Len = true, vp.Fid, vp.Offset, vp.Len
+	}
+	e.Internal = len(e.Key) >= len(badgerPrefix) && string(e.Key[:len(badgerPrefix)]) == string(badgerPrefix)
+	return e
+}
+
+// VerifTables returns the tables of every level in slice order.
+func (db *DB) VerifTables() [][]VerifTable {
+	out := make([][]VerifTable, len(db.lc.levels))
+	for i, l := range db.lc.levels {
+		l.RLock()
+		for pos, t := range l.tables {
+			out[i] = append(out[i], VerifTable{
+				ID: t.ID(), Level: i, Pos: pos,
+				Smallest: y.SafeCopy(nil, t.Smallest()), Biggest: y.SafeCopy(nil, t.Biggest()),
+				Size: t.Size(), StaleSize: t.StaleDataSize(), MaxVersion: t.MaxVersion(),
+				KeyCount: t.KeyCount(), CreatedAt: t.CreatedAt.Unix(), InMemory: t.IsInmemory,
+			})
+		}
+		l.RUnlock()
+	}
+	return out
+}
+
+// VerifTableEntries returns every entry of the table with the given id (in table order).
+func (db *DB) VerifTableEntries(id uint64) ([]VerifEntry, error) {
+	for i, l := range db.lc.levels {
+		l.RLock()
+		var tbl *table.Table
+		pos := -1
+		for p, t := range l.tables {
+			if t.ID() == id {
+				tbl, pos = t, p
+				t.IncrRef()
+				break
+			}
+		}
+		l.RUnlock()
+		if tbl == nil {
+			continue
+		}
+		var out []VerifEntry
+		it := tbl.NewIterator(0)
+		for it.Rewind(); it.Valid(); it.Next() {
+			e := verifEntryFrom(it.Key(), it.ValueCopy())
+			e.Source = fmt.Sprintf("L%d:%d", i, id)
+			e.TableID, e.Level, e.Pos = id, i, pos
+			out = append(out, e)
+		}
+		it.Close()
+		_ = tbl.DecrRef()
+		return out, nil
+	}
+	return nil, fmt.Errorf("table %d not found", id)
+}
+
+// VerifMemEntries returns the entries of the active memtable ("mt") and of the immutable
+// memtables ("imm0" is the oldest).
+func (db *DB) VerifMemEntries() []VerifEntry {
+	db.lock.RLock()
+	var mts []*memTable
+	var names []string
+	if db.mt != nil {
+		mts = append(mts, db.mt)
+		names = append(names, "mt")
+		db.mt.IncrRef()
+	}
+	for i, m := range db.imm {
+		mts = append(mts, m)
+		names = append(names, fmt.Sprintf("imm%d", i))
+		m.IncrRef()
+	}
+	db.lock.RUnlock()
+	var out []VerifEntry
+	for i, m := range mts {
+		it := m.sl.NewIterator()
+		for it.SeekToFirst(); it.Valid(); it.Next() {
+			e := verifEntryFrom(it.Key(), it.Value())
+			e.Source, e.Level = names[i], -1
+			out = append(out, e)
+		}
+		_ = it.Close()
+		m.DecrRef()
+	}
+	return out
+}
+
+// VerifLayout returns all physical entries (memtables, then levels in slice order).
+func (db *DB) VerifLayout() ([]VerifEntry, [][]VerifTable) {
+	out := db.VerifMemEntries()
+	tabs := db.VerifTables()
+	for _, lvl := range tabs {
+		for _, t := range lvl {
+			es, err := db.VerifTableEntries(t.ID)
+			if err == nil {
+				out = append(out, es...)
+			}
+		}
+	}
+	return out, tabs
+}
+
+// VerifNumImm returns the number of immutable memtables.
+func (db *DB) VerifNumImm() int {
+	db.lock.RLock()
+	defer db.lock.RUnlock()
+	return len(db.imm)
+}
+
+// VerifRotate pushes the active memtable to the flush queue (the push branch of
+// ensureRoomForWrite, without the isFull test). Must only be called while no write is
+// in flight (writeToLSM uses db.mt without the lock). Returns false if the memtable was
+// empty or the flush queue is full.
+func (db *DB) VerifRotate() (bool, error) {
+	db.lock.Lock()
+	defer db.lock.Unlock()
+	if db.mt == nil || db.mt.sl.Empty() {
+		return false, nil
+	}
+	select {
+	case db.flushChan <- db.mt:
+		db.imm = append(db.imm, db.mt)
+		var err error
+		db.mt, err = db.newMemTable()
+		if err != nil {
+			return true, err
+		}
+		if y.VerifEnabled {
+			y.VerifEvent("mem.rotate", len(db.imm))
+		}
+		return true, nil
+	default:
+		return false, nil
+	}
+}
+
+// VerifFlush rotates the active memtable and waits until the production flusher has
+// written every immutable memtable to level 0.
+func (db *DB) VerifFlush() error {
+	if _, err := db.VerifRotate(); err != nil {
+		return err
+	}
+	deadline := time.Now().Add(60 * time.Second)
+	for db.VerifNumImm() > 0 {
+		if time.Now().After(deadline) {
+			return fmt.Errorf("VerifFlush: immutable memtables not flushed after 60s")
+		}
+		time.Sleep(time.Millisecond)
+	}
+	return nil
+}
+
+// VerifDoCompact runs one production compaction (picker + build + install) on behalf of
+// compactor cid for the given level. adjusted in (0,1) makes an L0 compaction take the
+// L0->L0 path (compactor 0 only). Returns errFillTables' text as "nofill".
+func (db *DB) VerifDoCompact(cid, level int, score, adjusted float64) error {
+	p := compactionPriority{level: level, score: score, adjusted: adjusted, t: db.lc.levelTargets()}
+	err := db.lc.doCompact(cid, p)
+	if err == errFillTables {
+		return ErrVerifNoFill
+	}
+	return err
+}
+
+// ErrVerifNoFill is returned by VerifDoCompact when the picker selected nothing.
+var ErrVerifNoFill = fmt.Errorf("verif: picker selected no tables")
+
+// VerifBaseLevel returns the current base level.
+func (db *DB) VerifBaseLevel() int { return db.lc.levelTargets().baseLevel }
+
+// VerifPickLevels returns the production compaction priorities (level, score, adjusted).
+func (db *DB) VerifPickLevels() [][3]float64 {
+	var out [][3]float64
+	for _, p := range db.lc.pickCompactLevels(nil) {
+		out = append(out, [3]float64{float64(p.level), p.score, p.adjusted})
+	}
+	return out
+}
+
+// VerifInjectTable builds a table from the given entries (which must be in strictly
+// increasing internal-key order) with the production builder and installs it at the
+// given level through the MANIFEST, as the repository's createAndOpen test helper does.
+// For levels >= 1 the level slice is re-sorted by smallest key.
+func (db *DB) VerifInjectTable(level int, entries []VerifEntry) (uint64, error) {
+	bopts := buildTableOptions(db)
+	b := table.NewTableBuilder(bopts)
+	defer b.Close()
+	for _, e := range entries {
+		key := y.KeyWithTs(e.Key, e.Version)
+		vs := y.ValueStruct{Value: e.Value, Meta: e.Meta, UserMeta: e.UserMeta, ExpiresAt: e.ExpiresAt}
+		var vlen uint32
+		if e.Meta&bitValuePointer > 0 {
+			var vp valuePointer
+			vp.Decode(e.Value)
+			vlen = vp.Len
+		}
+		b.Add(key, vs, vlen)
+	}
+	id := db.lc.reserveFileID()
+	var tab *table.Table
+	var err error
+	if db.opt.InMemory {
+		tab, err = table.OpenInMemoryTable(b.Finish(), id, &bopts)
+	} else {
+		tab, err = table.CreateTable(table.NewFilename(id, db.opt.Dir), b)
+	}
+	if err != nil {
+		return 0, err
+	}
+	if !tab.IsInmemory {
+		if err := db.manifest.addChanges([]*pb.ManifestChange{
+			newCreateChange(tab.ID(), level, tab.KeyID(), tab.CompressionType()),
+		}, db.opt); err != nil {
+			return 0, err
+		}
+	}
+	lh := db.lc.levels[level]
+	lh.Lock()
+	lh.tables = append(lh.tables, tab)
+	lh.addSize(tab)
+	if level > 0 {
+		sort.Slice(lh.tables, func(i, j int) bool {
+			return y.CompareKeys(lh.tables[i].Smallest(), lh.tables[j].Smallest()) < 0
+		})
+	}
+	lh.Unlock()
+	return id, nil
+}
+
+// VerifSetTableCreatedAt back-dates (or forward-dates) a table's creation time, which the
+// L0->L0 and Lmax pickers consult.
+func (db *DB) VerifSetTableCreatedAt(id uint64, at time.Time) bool {
+	for _, l := range db.lc.levels {
+		l.RLock()
+		for _, t := range l.tables {
+			if t.ID() == id {
+				t.CreatedAt = at
+				l.RUnlock()
+				return true
+			}
+		}
+		l.RUnlock()
+	}
+	return false
+}
+
+// VerifVlogFids returns the value-log file ids currently in the files map (sorted) and
+// the ids pending deletion.
+func (db *DB) VerifVlogFids() (fids []uint32, pending []uint32, maxFid uint32) {
+	db.vlog.filesLock.RLock()
+	defer db.vlog.filesLock.RUnlock()
+	for fid := range db.vlog.filesMap {
+		fids = append(fids, fid)
+	}
+	sort.Slice(fids, func(i, j int) bool { return fids[i] < fids[j] })
+	pending = append(pending, db.vlog.filesToBeDeleted...)
+	return fids, pending, db.vlog.maxFid
+}
+
+// VerifRewrite runs the production value-log rewrite (GC of one file) on fid.
+func (db *DB) VerifRewrite(fid uint32) error {
+	db.vlog.filesLock.RLock()
+	lf, ok := db.vlog.filesMap[fid]
+	maxFid := db.vlog.maxFid
+	db.vlog.filesLock.RUnlock()
+	if !ok {
+		return fmt.Errorf("verif: no vlog file %d", fid)
+	}
+	if fid >= maxFid {
+		return fmt.Errorf("verif: vlog file %d is the active file", fid)
+	}
+	return db.vlog.rewrite(lf)
+}
+
+// VerifOracle is a snapshot of the timestamp oracle.
+type VerifOracle struct {
+	NextTxnTs      uint64 `json:"nextTxnTs"`
+	TxnDoneUntil   uint64 `json:"txnDoneUntil"`
+	TxnLastIndex   uint64 `json:"txnLastIndex"`
+	ReadDoneUntil  uint64 `json:"readDoneUntil"`
+	ReadLastIndex  uint64 `json:"readLastIndex"`
+	DiscardTs      uint64 `json:"discardTs"`
+	NumCommitted   int    `json:"numCommitted"`
+	LastCleanupTs  uint64 `json:"lastCleanupTs"`
+	DiscardAtBelow uint64 `json:"discardAtOrBelow"`
+}
+
+// VerifOracleState returns a snapshot of the oracle.
+func (db *DB) VerifOracleState() VerifOracle {
+	o := db.orc
+	o.Lock()
+	s := VerifOracle{
+		NextTxnTs: o.nextTxnTs, DiscardTs: o.discardTs,
+		NumCommitted: len(o.committedTxns), LastCleanupTs: o.lastCleanupTs,
+		TxnDoneUntil: o.txnMark.DoneUntil(), TxnLastIndex: o.txnMark.LastIndex(),
+		ReadDoneUntil: o.readMark.DoneUntil(), ReadLastIndex: o.readMark.LastIndex(),
+	}
+	o.Unlock()
+	s.DiscardAtBelow = o.discardAtOrBelow()
+	return s
+}
+
+// VerifRawGet performs the production point lookup db.get for key@ts and returns the raw
+// value struct (meta, version, inline value or pointer).
+func (db *DB) VerifRawGet(key []byte, ts uint64) (VerifEntry, bool, error) {
+	vs, err := db.get(y.KeyWithTs(key, ts))
+	if err != nil {
+		return VerifEntry{}, false, err
+	}
+	if vs.Meta == 0 && vs.Value == nil {
+		return VerifEntry{}, false, nil
+	}
+	e := verifEntryFrom(y.KeyWithTs(key, vs.Version), vs)
+	return e, true, nil
+}
+
+// VerifManifestTables returns the table id -> level map of the in-memory MANIFEST copy.
+func (db *DB) VerifManifestTables() map[uint64]int {
+	out := map[uint64]int{}
+	if db.manifest == nil || db.manifest.inMemory {
+		return out
+	}
+	db.manifest.appendLock.Lock()
+	defer db.manifest.appendLock.Unlock()
+	for id, tm := range db.manifest.manifest.Tables {
+		out[id] = int(tm.Level)
+	}
+	return out
+}
+
+// VerifValidateLevels runs the production level validation.
+func (db *DB) VerifValidateLevels() error { return db.lc.validate() }
+
+// VerifMaxBatch returns the transaction limits computed at Open.
+func (db *DB) VerifMaxBatch() (count, size int64) { return db.opt.maxBatchCount, db.opt.maxBatchSize }
+
+// VerifValueThreshold returns the current (possibly dynamic) value threshold.
+func (db *DB) VerifValueThreshold() int64 { return db.valueThreshold() }
+
+// VerifTxnID gives the harness a stable identity for a transaction passed in hook events.
+func VerifTxnID(t *Txn) string { return fmt.Sprintf("%p", t) }
